@@ -46,6 +46,12 @@ def check_case(case) -> Outcome:
     from ..libio import model_matrix
 
     out = Outcome()
+    odd = []
+    if case.get("rename"):
+        # a categorical column whose (quoted) name contains the interaction operator
+        case = F.rename_col({k: v for k, v in case.items() if k != "rename"}, case["rename"], "s:t")
+        odd = ["s:t"]
+        out.label("quoted-colon-name")
     fr, fc, efr, output = case["frame"], case["formula"], case["efr"], case["output"]
     df = F.build(fr)
     s = F.formula_string(fc)
@@ -89,7 +95,7 @@ def check_case(case) -> Outcome:
             if label == "Intercept":
                 got = frozenset()
             else:
-                got = frozenset(base_factor(p) for p in E.split_label(label))
+                got = frozenset(base_factor(p) for p in E.split_label(label, odd))
             # with rank reduction a term may also emit the columns of its missing margins
             # (a sub-product of its factors); without it the label names every factor
             if (got != frozenset(fset)) if not efr else (not got <= frozenset(fset)):
@@ -109,7 +115,7 @@ def check_case(case) -> Outcome:
         # printed term re-parses to the same term
         import re as _re
 
-        plain = all(_re.fullmatch(r"[\w.]+(\(.*\))?", f.expr) and ":" not in f.expr for f in t.factors)
+        plain = all(f.expr in odd or (_re.fullmatch(r"[\w.]+(\(.*\))?", f.expr) and ":" not in f.expr) for f in t.factors)
         if plain:
             if not srt:
                 out.label("unsorted-printed-term")
@@ -206,13 +212,14 @@ def gen(max_rows=10):
         return fcase
 
     return st.builds(
-        lambda fr, f, flag, efr, o, subs: {"frame": fr, "formula": swap(f, flag), "efr": efr, "output": o, "subsets": subs},
+        lambda fr, f, flag, efr, o, subs, rn: {"frame": fr, "formula": swap(f, flag), "efr": efr, "output": o, "subsets": subs, "rename": rn},
         F.frame(max_rows=max_rows, odd_names=False),
         fc,
         st.booleans(),
         st.sampled_from([True, True, False]),
         st.sampled_from(["pandas", "numpy", "sparse"]),
         st.lists(st.tuples(st.lists(st.integers(0, 6), min_size=1, max_size=4), st.sampled_from(["degree", "none"])), max_size=2),
+        st.sampled_from([None, None, None, "A", "B"]),
     )
 
 
